@@ -31,7 +31,13 @@ pub struct Entry {
 }
 
 pub fn entry<H: Harness + 'static>(h: H, max_classes: usize, max_secs: f64) -> Entry {
-    Entry { h: Box::new(h), budget: Budget { max_classes, max_secs, query_ms: 3000, steps: 3_000_000 } }
+    Entry { h: Box::new(h), budget: Budget { starts: 3, sample_only: false, max_classes, max_secs, query_ms: 3000, steps: 3_000_000 } }
+}
+
+/// solver-sampled configuration (for shapes whose queries are beyond the solver): `starts` seed-dependent inputs chosen by
+/// the solver inside Bounds ∧ Pre, each executed once and judged on its concrete obligations only
+pub fn sampled<H: Harness + 'static>(h: H, starts: u64, max_secs: f64) -> Entry {
+    Entry { h: Box::new(h), budget: Budget { starts, sample_only: true, max_classes: starts as usize + 2, max_secs, query_ms: 3000, steps: 3_000_000 } }
 }
 
 #[derive(Clone, Copy, PartialEq, Eq, Debug)]
